@@ -96,6 +96,11 @@ class CallMixin:
 
         run = self.run
         fn = f.node
+        if f.__dict__.get("pre_args") is not None:
+            # functools.partial(f, *pre, **prekw)
+            args = list(f.__dict__["pre_args"]) + list(args)
+            kwargs = {**f.__dict__.get("pre_kwargs", {}), **kwargs}
+            f = f.__dict__["partial_of"]
         if not top and self.is_opaque(f):
             return self.opaque_call(f, args, kwargs, node, dstar)
         if not top and self.run.cfg.treat_escape_primitive and f.mod.name == "htmltools._util" and f.qual == "html_escape":
@@ -675,6 +680,18 @@ class CallMixin:
             if nm == "format":
                 return _const_or(self.py_str(args[0], node))
             raise self.unmodelled(f"builtin {nm}", node)
+        if x.mod == "functools" and nm == "partial" and args and isinstance(args[0], SFunc) and not dstar:
+            f0 = args[0]
+            pf = SFunc(f0.mod, f0.node, f0.self_obj, f0.cls, f0.closure, f0.qual)
+            pf.__dict__["partial_of"] = f0.__dict__.get("partial_of", f0)
+            pf.__dict__["pre_args"] = list(f0.__dict__.get("pre_args") or []) + list(args[1:])
+            pf.__dict__["pre_kwargs"] = {**(f0.__dict__.get("pre_kwargs") or {}), **kwargs}
+            return pf
+        if x.mod == "itertools" and nm == "chain" and not kwargs:
+            # chain(a, b, ...) over containers whose items are known: the concatenation, consumed once in order
+            parts = [self.concrete_items(a) for a in args]
+            if all(p_ is not None for p_ in parts):
+                return SList("concrete", [i_ for p_ in parts for i_ in p_])
         if x.mod == "typing" and nm == "cast":
             # types-lite: a cast refines the kind set (the developer's claim is trusted; listed as an assumption)
             v = args[1]
@@ -766,7 +783,7 @@ class CallMixin:
         elif not m[0].module.name.startswith("htmltools"):
             mode = "userlist" if m[0].name == "UserList" else "alias"
         else:
-            mode = "fieldwise" if _is_dict_copy_idiom(m[1]) else "interpret"
+            mode = "fieldwise" if is_field_copy(self.prog, m[0].module, m[1]) else "interpret"
         cache[ci.qualname] = mode
         return mode
 
@@ -958,6 +975,11 @@ class CallMixin:
             return SOpaque((f"{recv.base}.{name}", _ref(recv.obj)))
         # ---- concrete lists -----------------------------------------------------------------
         if isinstance(recv, SList):
+            if recv.mode == "map" and recv.pytype == "list" and name in ("append", "extend") and len(args) == 1 and "entry" not in recv.__dict__:
+                # a comprehension result that is added to: [*<the comprehension>, ...]
+                m_ = SList("map", [], recv.base, recv.kinds, recv.elt, recv.var, recv.name, recv.cond)
+                m_.__dict__.update({k_: v_ for k_, v_ in recv.__dict__.items() if k_ not in ("uid", "mode", "items", "base", "kinds", "elt", "var", "name", "cond")})
+                recv.mode, recv.items, recv.base, recv.elt, recv.var, recv.cond, recv.kinds = "concrete", [SSplat(m_)], None, None, None, None, None
             if recv.mode == "concrete":
                 if name == "append":
                     recv.items.append(args[0])
@@ -1216,7 +1238,24 @@ def _elem_origin(v: Any) -> str:
     return m.get("elem_origin") or getattr(v, "origin", "new")
 
 
-def _is_dict_copy_idiom(fn: ast.FunctionDef) -> bool:
+def is_field_copy(prog: Any, mod: Any, fn: ast.FunctionDef) -> bool:
+    """The __copy__ method `fn` is the field-copy idiom, written out or delegated (`return helper(self)`) to a function that is."""
+    if not fn.args.args:
+        return False
+    me = fn.args.args[0].arg
+    if _is_dict_copy_idiom(fn, me):
+        return True
+    body = [st for st in fn.body if not (isinstance(st, ast.Expr) and isinstance(st.value, ast.Constant))]
+    if len(body) == 1 and isinstance(body[0], ast.Return) and isinstance(body[0].value, ast.Call):
+        c = body[0].value
+        if isinstance(c.func, ast.Name) and not c.keywords and len(c.args) == 1 and isinstance(c.args[0], ast.Name) and c.args[0].id == me:
+            k, v = prog.resolve(mod, c.func.id)
+            if k == "func" and v[1].args.args and not v[1].decorator_list:
+                return _is_dict_copy_idiom(v[1], v[1].args.args[0].arg)
+    return False
+
+
+def _is_dict_copy_idiom(fn: ast.FunctionDef, me: str = "self") -> bool:
     """`new = {k: copy(v) for k, v in self.__dict__.items()}; cp = cls.__new__(cls); cp.__dict__.update(new); return cp`."""
     has_comp = has_update = has_new = False
     for n in ast.walk(fn):
@@ -1225,7 +1264,7 @@ def _is_dict_copy_idiom(fn: ast.FunctionDef) -> bool:
             it = g.iter
             if isinstance(it, ast.Call) and isinstance(it.func, ast.Attribute) and it.func.attr == "items" \
                     and isinstance(it.func.value, ast.Attribute) and it.func.value.attr == "__dict__" \
-                    and isinstance(it.func.value.value, ast.Name) and it.func.value.value.id == "self" and not g.ifs:
+                    and isinstance(it.func.value.value, ast.Name) and it.func.value.value.id == me and not g.ifs:
                 v = n.value
                 if isinstance(v, ast.Call) and not v.keywords and len(v.args) == 1 and ast.unparse(v.func) in ("copy", "copy.copy") \
                         and isinstance(g.target, ast.Tuple) and len(g.target.elts) == 2 and isinstance(v.args[0], ast.Name) \
@@ -1242,7 +1281,7 @@ def _is_dict_copy_idiom(fn: ast.FunctionDef) -> bool:
         return True
     # the same copy written as a loop: for k, v in self.__dict__.items(): cp.__dict__[k] = copy(v)   (or setattr(cp, k, copy(v)))
     dict_aliases = {t.id for n in ast.walk(fn) if isinstance(n, ast.Assign) and isinstance(n.value, ast.Attribute) and n.value.attr == "__dict__"
-                    and not (isinstance(n.value.value, ast.Name) and n.value.value.id == "self")
+                    and not (isinstance(n.value.value, ast.Name) and n.value.value.id == me)
                     for t in n.targets if isinstance(t, ast.Name)}
     has_loop = False
     for n in ast.walk(fn):
@@ -1252,7 +1291,7 @@ def _is_dict_copy_idiom(fn: ast.FunctionDef) -> bool:
         it = n.iter
         if not (isinstance(it, ast.Call) and isinstance(it.func, ast.Attribute) and it.func.attr == "items" and not it.args
                 and isinstance(it.func.value, ast.Attribute) and it.func.value.attr == "__dict__"
-                and isinstance(it.func.value.value, ast.Name) and it.func.value.value.id == "self"):
+                and isinstance(it.func.value.value, ast.Name) and it.func.value.value.id == me):
             continue
         k, v = n.target.elts[0].id, n.target.elts[1].id  # type: ignore[attr-defined]
 
@@ -1263,7 +1302,7 @@ def _is_dict_copy_idiom(fn: ast.FunctionDef) -> bool:
         st = n.body[0]
         if isinstance(st, ast.Assign) and len(st.targets) == 1 and isinstance(st.targets[0], ast.Subscript) and _is_copy_of_v(st.value):
             tg = st.targets[0]
-            base_ok = (isinstance(tg.value, ast.Attribute) and tg.value.attr == "__dict__" and not (isinstance(tg.value.value, ast.Name) and tg.value.value.id == "self")) \
+            base_ok = (isinstance(tg.value, ast.Attribute) and tg.value.attr == "__dict__" and not (isinstance(tg.value.value, ast.Name) and tg.value.value.id == me)) \
                 or (isinstance(tg.value, ast.Name) and tg.value.id in dict_aliases)
             if not base_ok and isinstance(tg.value, ast.Name):
                 # a temporary dict filled by the loop and handed to <copy>.__dict__.update(tmp) afterwards
@@ -1272,13 +1311,13 @@ def _is_dict_copy_idiom(fn: ast.FunctionDef) -> bool:
                                and (isinstance(a.value, ast.Dict) and not a.value.keys or (isinstance(a.value, ast.Call) and isinstance(a.value.func, ast.Name) and a.value.func.id == "dict" and not a.value.args and not a.value.keywords))
                                for a in ast.walk(fn))
                 handed = any(isinstance(c, ast.Call) and isinstance(c.func, ast.Attribute) and c.func.attr == "update" and isinstance(c.func.value, ast.Attribute)
-                             and c.func.value.attr == "__dict__" and not (isinstance(c.func.value.value, ast.Name) and c.func.value.value.id == "self")
+                             and c.func.value.attr == "__dict__" and not (isinstance(c.func.value.value, ast.Name) and c.func.value.value.id == me)
                              and len(c.args) == 1 and isinstance(c.args[0], ast.Name) and c.args[0].id == tmp for c in ast.walk(fn))
                 base_ok = is_fresh and handed
             if base_ok and isinstance(tg.slice, ast.Name) and tg.slice.id == k:
                 has_loop = True
         if isinstance(st, ast.Expr) and isinstance(st.value, ast.Call) and isinstance(st.value.func, ast.Name) and st.value.func.id == "setattr" \
-                and len(st.value.args) == 3 and isinstance(st.value.args[0], ast.Name) and st.value.args[0].id != "self" \
+                and len(st.value.args) == 3 and isinstance(st.value.args[0], ast.Name) and st.value.args[0].id != me \
                 and isinstance(st.value.args[1], ast.Name) and st.value.args[1].id == k and _is_copy_of_v(st.value.args[2]):
             has_loop = True
     return has_loop and has_new and len(rets) == 1
